@@ -53,7 +53,7 @@ MAX_REPORT = 6
 RSEED = [1]
 
 # scenarios of the quick tier's debug-build sweep
-DBG_PREFIXES = ("unit_pool_3_4", "unit_mtctx_2", "unit_mtresize_a", "mt_oneshot", "mt_stream", "mt_ldm", "train_opt_cover_mt")
+DBG_PREFIXES = ("unit_pool_3_4", "unit_mtctx_2", "unit_mtresize_a", "mt_oneshot", "mt_stream", "train_opt_cover_mt")
 
 
 # --------------------------------------------------------------------------
@@ -642,10 +642,10 @@ def run(ctx):
     core.log("C13: + MT repeats: %.1fs" % (time.time() - t0))
     # 2a. more random histories: the rand_* scenarios again with other sequence seeds (every k each)
     rnd = [(n, h) for n, h in scens if n.startswith("rand_")]
-    for i in range(2 if ctx.quick else 25):
+    for i in range(1 if ctx.quick else 25):
         RSEED[0] = ctx.seed * 1000 + 1 + i
         b.process([["sweep", n] for n, h in rnd], "rand%d" % i, timeout_s=40 if ctx.quick else 90, wall=900, tie=False)
-    ctx.notes["random_histories"] = len(rnd) * (1 + (2 if ctx.quick else 25))
+    ctx.notes["random_histories"] = len(rnd) * (1 + (1 if ctx.quick else 25))
     RSEED[0] = ctx.seed
     core.log("C13: + random histories: %.1fs" % (time.time() - t0))
     # 2b. debug build (-DDEBUGLEVEL=1): every mutex / condition is one more libc allocation of the library (threading.c) and the
